@@ -52,3 +52,12 @@ func TickInterval(i int) time.Duration
 
 // FireTicker delivers one tick of the i-th ticker created so far.
 func FireTicker(i int) bool
+
+// KVConflicts is the number of optimistic-transaction conflicts the KV model has reported so far.
+func KVConflicts() int
+
+// OnCrash enables crash points (before and after every committing
+// transaction); on a crash everything in flight is abandoned and f runs on
+// the committed state. NoCrash disables them again.
+func OnCrash(f func())
+func NoCrash()
